@@ -10,9 +10,12 @@ properties; reference \\uN decoding), IfaceGen.tla (bounded universes + laws), I
    says, the real extractor is called with the concretised path argument.
 3. code -> spec: a recorder calls the WHOLE accessor protocol on every result and every unit, image and table
    reachable from it and logs one event per call with the projected return (or the exception); the same is done
-   for every repository fixture and for seeded mutants (truncation, byte flips, zeroed / 0xFF ranges) of fixtures
-   and generated files that the extractor still accepts.  IfaceTrace.tla validates: it has no action for a
-   non-conforming return.
+   for every repository fixture, for seeded mutants (truncation, byte flips, zeroed / 0xFF ranges, applied to
+   the file or to the content of one ZIP member) of fixtures and generated files that the extractor still
+   accepts, and for generated containers whose picture payloads are damaged (header wiped, no image format,
+   empty, CRC mismatch).  IfaceTrace.tla validates: it has no action for a non-conforming return.
+   (Quick tier: the property-value cases record the result-level accessors only; the full protocol of the same
+   documents is recorded by the path cases.)
 Extractions run in worker processes with a per-case timer; a case that does not finish is skipped (termination
 is C01's business)."""
 from __future__ import annotations
@@ -169,7 +172,15 @@ def run(ctx):
     ev, v = ctx.ev, ctx.v
     rng = random.Random(ctx.seed)
     from ..docrun import EXTRACTOR, render, rich_doc
-    formats = sorted(EXTRACTOR)
+    formats = []
+    for f in sorted(EXTRACTOR):          # formats docrun can generate a rich document for
+        try:
+            render(L.enrich(rich_doc(f, ctx.seed)), f)
+            formats.append(f)
+        except (ValueError, KeyError):
+            ctx.log(f"format {f}: docrun.rich_doc has no document for it: not part of the generated cases")
+    if len(formats) < 10:
+        raise MachineryError(f"docrun generates rich documents for {formats} only (binding vanished?)")
     max_dirs = 2 if ctx.thorough else 1
     max_val = 3 if ctx.thorough else 2
 
@@ -219,6 +230,8 @@ def run(ctx):
     ctx.log(f"TLC enumerated {len(paths)} abstract paths, {len(cases)} (form x value x format) cases, {len(units)} \\uN runs")
 
     # ------------------------------------------------------------------ 2. jobs
+    if os.path.exists(L.NX_ROOT):
+        raise MachineryError(f"{L.NX_ROOT} exists: it stands for a root that does not")
     wroot = ctx.scratch / "w"
     wroot.mkdir()
     tmo = 40 if ctx.thorough else 15
@@ -371,8 +384,8 @@ def run(ctx):
                 "each concretised and run through the real extractor of a generated rich document, + repository fixtures, "
                 "+ seeded mutants of fixtures and generated files that are still accepted; the whole accessor protocol is "
                 "recorded on every result and validated by TLC (IfaceTrace); non-trivial = distinct generated case or accepted mutant",
-           exhaustive=True,
-           constants={"MaxDirs": max_dirs, "MaxVal": max_val, "paths": len(paths), "cases": len(cases), "unit_runs": len(units),
+           exhaustive=bool(ctx.thorough),       # quick replays a seeded sample of the enumerated paths
+           constants={"MaxDirs": max_dirs, "MaxVal": max_val, "paths": len(paths), "paths_replayed": len(replay_paths), "cases": len(cases), "unit_runs": len(units),
                       "fixtures": len(fixtures), "mutants_tried": sum(n for (k, s), n in stat.items() if k == "mutant"),
                       "mutants_accepted": acc, "accessor_events_validated": n_events,
                       "skipped_timeouts": sum(n for (k, s), n in stat.items() if s == "timeout"), "formats": formats})
